@@ -102,7 +102,7 @@ public :
                                     unsigned int currentLoop,
                                     unsigned int& nextState,
                                     unsigned int& nextLoop,
-                                    XMLSize_t elementIndex,
+                                    XMLSize_t& elementIndex,
                                     SubstitutionGroupComparator * comparator) const;
 
     virtual void checkUniqueParticleAttribution
@@ -201,7 +201,7 @@ SimpleContentModel::handleRepetitions( const QName* const /*curElem*/,
                                        unsigned int /*currentLoop*/,
                                        unsigned int& /*nextState*/,
                                        unsigned int& /*nextLoop*/,
-                                       XMLSize_t /*elementIndex*/,
+                                       XMLSize_t& /*elementIndex*/,
                                        SubstitutionGroupComparator * /*comparator*/) const
 {
     return true;
